@@ -804,7 +804,7 @@ func rC01ErrDiscipline(w *World, r *Report) {
 								ig2 := buildIG(f)
 								seen := ig2.reachFrom(ig2.edgeStart(iff.Block(), k), nil)
 								for i, s := range seen {
-									if ret, ok := ig2.instrs[i].(*ssa.Return); ok && s {
+									if ret, ok := ig2.instrs[i].(*ssa.Return); ok && s && len(ret.Results) > 0 {
 										last := ret.Results[len(ret.Results)-1]
 										if last == ssa.Value(call) {
 											returned = true
